@@ -335,8 +335,7 @@ func (a *Accounts) get(address types.Address) *Model {
 		account.coins = coins
 	}
 
-	a.setToMap(address, account)
-	return account
+	return a.setToMapIfAbsent(address, account)
 }
 
 func (a *Accounts) getOrNew(address types.Address) *Model {
@@ -473,4 +472,19 @@ func (a *Accounts) setToMap(address types.Address, model *Model) {
 	defer a.lock.Unlock()
 
 	a.list[address] = model
+}
+
+// setToMapIfAbsent caches a model that was just loaded from the tree and returns the cached one.
+// The cache is shared between block execution and read-only queries: when two callers load the same
+// account at the same time, the second one must not replace the model the first is already working on.
+func (a *Accounts) setToMapIfAbsent(address types.Address, model *Model) *Model {
+	a.lock.Lock()
+	defer a.lock.Unlock()
+
+	if cached := a.list[address]; cached != nil {
+		return cached
+	}
+
+	a.list[address] = model
+	return model
 }
